@@ -15,11 +15,9 @@ func u64s(u uint64) string { return strconv.FormatUint(u, 10) }
 // as ?<type> so that a mis-typed value (e.g. a Go int) is visible.
 const renderBudget = 3000
 
-var renderLeft int
-
 func render(v any) string {
-	renderLeft = renderBudget
-	return renderPath(v, nil)
+	left := renderBudget
+	return renderPath(v, nil, &left)
 }
 
 type eface struct {
@@ -40,11 +38,11 @@ func contID(v any) uintptr {
 	return 0
 }
 
-func renderPath(v any, path []uintptr) string {
-	if renderLeft == 0 {
+func renderPath(v any, path []uintptr, left *int) string {
+	if *left == 0 {
 		return "~"
 	}
-	renderLeft--
+	*left--
 	switch x := v.(type) {
 	case nil:
 		return "n"
@@ -74,7 +72,7 @@ func renderPath(v any, path []uintptr) string {
 			if i > 0 {
 				s += ","
 			}
-			s += renderPath(e, np)
+			s += renderPath(e, np, left)
 		}
 		return s + "]"
 	case map[string]any:
@@ -95,7 +93,7 @@ func renderPath(v any, path []uintptr) string {
 			if i > 0 {
 				s += ","
 			}
-			s += hex.EncodeToString([]byte(k)) + ":" + renderPath(x[k], np)
+			s += hex.EncodeToString([]byte(k)) + ":" + renderPath(x[k], np, left)
 		}
 		return s + "}"
 	}
